@@ -145,7 +145,7 @@ def live (x : World4) : List Session := x.w.conns.flatMap (·.2.sessions)
 `none` when an identifier the entry needs is not allocated -/
 def pdrImage (cfg4 : Cfg4) (st : St) (s : Session) (p : Pdr) : Option (List Entry) := do
   let far ← s.fars.find? (·.farID = p.farID)
-  let needPeer := far.tunnelTEID ≠ 0
+  let needPeer := far.dstIntf = 0 ∧ far.tunnelTEID ≠ 0
   let peerID ← if needPeer then (mapGet st.peers (tpOf cfg4 far)).map (·.id) else some ((mapGet st.peers (tpOf cfg4 far)).map (·.id) |>.getD 0)
   let sessMeter : Meter := if p.qerIDs.length = 2 then (mapGet st.meters (p.qerIDs.getD 1 0, p.fseID)).getD zeroMeter else { kind := 2, ul := 0, dl := 0 }
   let se ← buildSessions p sessMeter peerID (buffers far)
